@@ -102,13 +102,15 @@ def parseCfg (s : String) : Option SuiteConfig :=
   | _ => none
 
 /-- how a suite is obtained: `R:<rawHex>` NewRawSuite; `C:…` config used as is (bare SuiteConfig or RawSuite literal);
-`S:…` (same fields as C) NewSuite -/
+`S:…` (same fields as C) NewSuite; `X:…` a RawSuite returned by a constructor for a registered suite, its (exported,
+embedded) SuiteConfig then overwritten with these fields: what it means is what its fields say now -/
 def parseSuite (s : String) : Option (Out SuiteConfig) :=
   match s.splitOn ":" with
   | ["R", raw] => (unhex raw).map newRawSuite
   | "C" :: _ => (parseCfg s).map .ok
   | "M" :: rest => (parseCfg (":".intercalate ("C" :: rest))).map .ok
   | "S" :: rest => (parseCfg (":".intercalate ("C" :: rest))).map newSuite
+  | "X" :: rest => (parseCfg (":".intercalate ("C" :: rest))).map .ok   -- a RawSuite from a constructor whose exported fields were then set to these
   | _ => none
 
 /-- `I:<counter>:<challenge>:<password>:<session>:<timestamp>` -/
